@@ -180,6 +180,11 @@ def run_case(case):
                 di = int(c.split(":")[1])
                 sc = drivers[di].snooping_client
                 sc.handshake()
+                if c.startswith("snoop-also"):
+                    # an in-process client that wants the BLOBs too (a driver processing another driver's frames)
+                    from indi import message as _m
+                    for d in drivers:
+                        sc.send_message(_m.EnableBLOB(device=d.name, value="Also"))
                 clients.append(sc)
             else:
                 hwm = case.get("backpressure")
@@ -304,6 +309,11 @@ def wire_len_estimate(value):
     return 0
 
 
+def peer_blobs(kind):
+    """does setBLOBVector reach this client (network clients through their BLOB connection; in-process ones only if they asked)"""
+    return not kind.startswith("snoop") or kind.startswith("snoop-also")
+
+
 def run_impl(case, outcome):
     try:
         obs, defns = run_case(case)
@@ -323,7 +333,7 @@ def run_impl(case, outcome):
         if "C01" in want:
             for ci, mir in enumerate(o["mirrors"]):
                 for di, dev in enumerate(o["drivers"]):
-                    qs.append(Query("spec c01 %s %s %s" % (not case["clients"][ci].startswith("snoop"), dev, mir), "True", "oracle",
+                    qs.append(Query("spec c01 %s %s %s" % (peer_blobs(case["clients"][ci]), dev, mir), "True", "oracle",
                                     "after %r client %d (%s) does not see device %d as it is" % (op[:5], ci, case["clients"][ci], di)))
         if n and "C06" in want and op[0] == "cs":
             # the submit of an earlier assignment: the values are those of the matching "ca"
@@ -342,7 +352,7 @@ def run_impl(case, outcome):
         if n and "C08" in want and op[0] in ("a", "s") and isinstance(op[5], dict) and "b" in op[5]:
             di = op[1]
             for ci, kind in enumerate(case["clients"]):
-                policy = "Only" if kind == "net" else "Also" if kind == "net-also" else "Never"
+                policy = "Only" if kind == "net" else "Also" if kind in ("net-also",) or kind.startswith("snoop-also") else "Never"
                 qs.append(Query("spec c08 %s %s %d %d %d %s %s" % (policy, o["drivers"][di], op[2], op[3], op[4], obs[n - 1]["mirrors"][ci], o["mirrors"][ci]),
                                 "True", "oracle", "BLOB %d bytes published by device %d: client %d (%s) holds the wrong thing" % (len(op[5]["b"]) // 2, di, ci, kind)))
     for n, op in enumerate(case["ops"]):
@@ -351,7 +361,7 @@ def run_impl(case, outcome):
             for sub in op[1]:
                 if sub[0] in ("a", "s") and isinstance(sub[5], dict) and "b" in sub[5]:
                     for ci, kind in enumerate(case["clients"]):
-                        policy = "Only" if kind == "net" else "Also" if kind == "net-also" else "Never"
+                        policy = "Only" if kind == "net" else "Also" if kind in ("net-also",) or kind.startswith("snoop-also") else "Never"
                         qs.append(Query("spec c08 %s %s %d %d %d %s %s" % (policy, o["drivers"][sub[1]], sub[2], sub[3], sub[4], obs[n]["mirrors"][ci], o["mirrors"][ci]),
                                         "True", "oracle", "BLOB %d bytes published by device %d in a burst under back-pressure: client %d (%s) holds the wrong thing"
                                         % (len(sub[5]["b"]) // 2, sub[1], ci, kind)))
@@ -373,7 +383,7 @@ def run_impl(case, outcome):
     elif not any(op[0] in ("lagbatch", "burst", "craw") for op in case["ops"]):
         # correspondence: the Lean deployment model (Model/Sys.lean), step by step from the observed state:
         # the observed next state must be one the model allows (any interleaving of control and BLOB connection)
-        kinds = ["%s %s %s" % (not c.startswith("snoop"), c.startswith("snoop"), c == "net-also") for c in case["clients"]]
+        kinds = ["%s %s %s" % (peer_blobs(c), c.startswith("snoop"), c == "net-also") for c in case["clients"]]
         qs.append(Query("sys start %s %s %s" % (enc_list(lambda x: x, obs[0]["drivers"]), enc_list(lambda x: x, kinds), enc_list(lambda x: x, obs[0]["mirrors"])),
                         "ok", "corr"))
         for n, op in enumerate(case["ops"]):
@@ -691,6 +701,13 @@ def gen_c08(rng, tier):
             if size <= 1300 or thorough or (frag == "1024" and size in (1536, 3000)):
                 yield {"op": "sys", "devices": [blob_device()], "clients": ["net"], "frag": frag, "frag_seed": rng.randrange(10 ** 6),
                        "ops": [["cw", 0, "CAM", "IMG", {"img": {"b": data.hex(), "fmt": ".bin"}}], ["cw", 0, "CAM", "TXT", {"t": "after"}]], "oracles": ["C06", "C01"]}
+    # an in-process client that enabled BLOBs, registered BEFORE the network client: both are handed the same update
+    for frag in ["1024", "random"]:
+        for size in (1, 300, 1500) if not thorough else (1, 3, 300, 768, 1500, 5000):
+            data = bytes(rng.randrange(256) for _ in range(size))
+            ops = [["a", 0, 0, 0, 0, {"b": data.hex(), "fmt": ".fits"}], ["a", 0, 0, 1, 0, {"t": "after"}], ["a", 0, 0, 0, 0, {"b": data[::-1].hex(), "fmt": ".x"}]]
+            yield {"op": "sys", "devices": [blob_device()], "clients": ["snoop-also:0", "net"], "frag": frag, "frag_seed": rng.randrange(10 ** 6),
+                   "ops": ops, "oracles": ["C08", "C01"]}
     # a driver that keeps one BLOB object per element (a frame buffer), refills it and publishes it again: same length, longer, shorter
     for frag in ["1024", "random"]:
         frames = [bytes(rng.randrange(256) for _ in range(n)) for n in (300, 300, 300, 1200, 40, 40, 0, 300)]
@@ -738,6 +755,33 @@ def gen_c01_burst(rng, tier):
             ops.append(["burst", subs, gaps])
         yield {"op": "sys", "devices": devices, "clients": clients, "frag": rng.choice(["1024", "random", "random"]), "frag_seed": rng.randrange(10 ** 6),
                "backpressure": rng.choice([0, 0, 16, 300, 4096]), "ops": ops, "oracles": ["C01"]}
+
+
+def gen_c01_reannounce(rng, tier):
+    """update, re-announcement (the property switched off and on again, or re-requested), another update of the SAME property -
+    back to back, so that all of it reaches the client in one read: the client must end with the last update"""
+    n = 60 if tier == "thorough" else 16
+    done = 0
+    for _ in range(n * 6):
+        if done >= n:
+            break
+        devices = simple_devices(rng, 1)
+        d = merged_of(devices[0])
+        cands = [(gi, vi, v) for gi, g in enumerate(d["groups"]) for vi, v in enumerate(g["vectors"])
+                 if v["kind"] in ("text", "number") and g.get("enabled", True) and v.get("enabled", True) and v["elements"][0].get("enabled", True)
+                 and sum(1 for g2 in d["groups"] for v2 in g2["vectors"] if v2["name"] == v["name"]) == 1]
+        if not cands:
+            continue
+        gi, vi, v = rng.choice(cands)
+        vals = [{"t": "first"}, {"t": "second"}, {"t": "third"}] if v["kind"] == "text" else [{"n": 1}, {"n": 2}, {"n": 3}]
+        subs = [["a", 0, gi, vi, 0, vals[0]], ["ev", 0, gi, vi, False], ["ev", 0, gi, vi, True], ["a", 0, gi, vi, 0, vals[1]]]
+        if rng.random() < 0.5:
+            subs += [["st", 0, gi, vi, "Busy"], ["a", 0, gi, vi, 0, vals[2]]]
+        done += 1
+        yield {"op": "sys", "devices": devices, "clients": rng.choice([["net"], ["net", "snoop:0"]]), "frag": "1024" if not done % 2 else rng.choice(["1024", "random"]),
+               "frag_seed": rng.randrange(10 ** 6),
+               # once back to back, once with the client's control connection lagging so that everything arrives in ONE read
+               "ops": [["burst", subs, [0] * len(subs)]] if done % 2 else [["lagbatch", 0, subs]], "oracles": ["C01"]}
 
 
 def gen_c08_burst(rng, tier):
